@@ -70,10 +70,10 @@ class VTransport(asyncio.Transport):
         if not isinstance(data, (bytes, bytearray, memoryview)):
             raise TypeError('data must be bytes-like')
         data = bytes(data)
-        if self.eof_sent:
-            raise RuntimeError('Cannot call write() after write_eof()')
         if self.closing or self.lost or not data:
             return
+        if self.eof_sent:
+            raise RuntimeError('Cannot call write() after write_eof()')
         data = Chunk(data)
         data.label = self.next_label
         self.next_label = None
